@@ -303,6 +303,11 @@ class C14(Prop):
                                     same = [c for c in classes(cfi.Instruction) if c._directive == dname]
                                     if len(same) != 1 or bytes(same[0](*operands).encode(bo, ps)) != exp:
                                         bad("directive form does not re-encode to the same bytes", [cls.__name__, repr(combo), bo, ps])
+                                    # ... and an assembler that is given the directive emits these bytes
+                                    asm = std4.asm_directive(dname, operands)
+                                    if asm != exp:
+                                        bad("the directive handed to GTIRB does not assemble to the instruction's bytes", [cls.__name__, repr(combo), bo, ps],
+                                            expected=exp.hex(), observed=None if asm is None else asm.hex())
                             if len(samples) < 4 and n % 997 == 0:
                                 samples.append({"oracle": "std4 encode/decode", "class": cls.__name__, "operands": repr(combo), "bytes": exp.hex()})
         # parse inverts concatenation
